@@ -37,7 +37,15 @@ var trUnits = []*trUnit{
 		"Multiply", "newNormalizedPrices", "Prices.addPrice", "Prices.Insert", "NormalizedPrices.Price", "NormalizedPrices.Valuate",
 		"Prices.normalize", "Prices.Normalize",
 	}},
-	{pkg: "lib/journal", mod: "Journal", funcs: []string{"ComputePrices", "Valuate", "Filter", "CloseAccounts"}},
+	{pkg: "lib/journal", mod: "Journal", funcs: []string{"ComputePrices", "Valuate", "Filter", "CloseAccounts"},
+		agree: map[string]string{"ComputePrices": "Process", "Valuate": "Process", "Filter": "Process", "CloseAccounts": "Process"}},
+}
+
+func (u *trUnit) agreeMod(fn string) string {
+	if m, ok := u.agree[fn]; ok {
+		return m
+	}
+	return u.mod
 }
 
 func (t *trTranslator) findFunc(p *trPkg, name string) *ast.FuncDecl {
@@ -438,7 +446,7 @@ func trRun(repo string) (map[string]string, []string) {
 		for _, name := range u.funcs {
 			fd := t.findFunc(p, name)
 			if fd == nil {
-				t.rejects = append(t.rejects, fmt.Sprintf("trans-reject %s %s: function not found in %s", u.mod, name, u.pkg))
+				t.rejects = append(t.rejects, fmt.Sprintf("trans-reject %s %s: function not found in %s", u.agreeMod(name), name, u.pkg))
 				continue
 			}
 			obj, _ := p.info.Defs[fd.Name].(*types.Func)
@@ -540,7 +548,7 @@ func trRun(repo string) (map[string]string, []string) {
 			if f.rejected != nil {
 				where := l.relPos(f.rejected.pos)
 				status = where + ": " + f.rejected.msg
-				t.rejects = append(t.rejects, fmt.Sprintf("trans-reject %s %s: %s: %s", u.mod, f.leanName, where, f.rejected.msg))
+				t.rejects = append(t.rejects, fmt.Sprintf("trans-reject %s %s: %s: %s", u.agreeMod(f.leanName), f.leanName, where, f.rejected.msg))
 				fmt.Fprintf(&body, "-- REJECTED %s: %s: %s\n\n", f.leanName, where, f.rejected.msg)
 			} else {
 				body.WriteString(f.text + "\n")
